@@ -14,10 +14,7 @@ Has(r, f) == f \in DOMAIN r
 NTag(seq, tag) == Cardinality({k \in 1..Len(seq) : seq[k][2] = tag})
 Note(cond, seq, tag) == IF cond \/ NTag(seq, tag) >= 60 THEN seq ELSE Append(seq, <<l, tag>>)
 TInit == /\ l = 1 /\ viol = <<>> /\ drift = <<>> /\ nchk = 0 /\ cnt = [dump |-> 0, pure |-> 0]
-         /\ inp = Base /\ pc = "trace" /\ outcome = "running" /\ softErrs = {} /\ opened = {} /\ cur = 0 /\ count = 0
-(* does Totality say the linker-data stream fails softly for this input? *)
-DsoFails(i) == \/ i.phdr # "true" \/ i.phnum \in {"larger", "huge"} \/ i.vaddr = "gt_base" \/ i.dyn = "unterminated"
-               \/ i.list \in {"dangling", "name_nonutf8"} \/ (~BoundedWalk /\ i.list \in {"cyclic", "selfloop"})
+         /\ inp = Base /\ pc = "trace" /\ outcome = "running" /\ softErrs = {} /\ opened = {} /\ cur = 0 /\ count = 0 /\ dynpos = 0
 Dump == /\ E.ev = "dump"
         /\ LET v1 == Note(E.worker # "timeout", viol, "C02-dump-did-not-return-" \o E.class)
                v2 == Note(E.worker = "timeout" \/ (E.worker = "exited" /\ E.outcome \in {"ok", "err"}), v1, "C02-panic-or-crash-" \o E.class)
